@@ -89,6 +89,12 @@ def impl(case):
         c = CircuitTemplate("c", nodes=nodes, edges=edges)
         # the documented `decorator=` option of run() / get_run_func(): a pass-through wrapper must not change anything (in particular
         # it must not make the vector field run an extra time: the ring buffers of discrete delays are its only state)
+        # backend: default (numpy) or Fortran (f2py build, needs /venv/bin on PATH; a file name of its own per circuit: a second
+        # Fortran build under one name in one process would hand back the first routine)
+        backend_kw = {"backend": "default"}
+        if case.get("backend") == "fortran":
+            import hashlib
+            backend_kw = {"backend": "fortran", "file_name": "f" + hashlib.sha1(json.dumps(case, sort_keys=True).encode()).hexdigest()[:10]}
         deco_kw = {}
         if case.get("decorator"):
             def passthrough(f, tag=None):
@@ -100,8 +106,8 @@ def impl(case):
                 deco_kw["decorator_kwargs"] = {"tag": 1}
         try:
             r = c.run(simulation_time=case["steps"] * dt, step_size=dt, solver=case["solver"], outputs=outs,
-                      vectorize=case["vectorize"], float_precision="float64", backend="default", clear=True, verbose=False,
-                      in_place=False, **deco_kw)
+                      vectorize=case["vectorize"], float_precision="float64", clear=True, verbose=False,
+                      in_place=False, **backend_kw, **deco_kw)
         except (IndexError, ValueError, KeyError, TypeError, AttributeError, NameError, PyRatesException) as e:
             return {"raised": type(e).__name__, "msg": str(e)[:160]}
         cols = [f"n{i}" for i, n in enumerate(case["nodes"]) if n["kind"] != "r"] + [f"tap{j}" for j in range(len(case.get("taps", [])))]
@@ -316,6 +322,17 @@ def gen_case(rng, kind="valid"):
     if kind in ("valid", "sibling", "spreadsib") and rng.random() < 0.25:
         case["decorator"] = rng.choice([True, "kwargs"])
     return case
+
+def gen_fortran(rng):
+    """valid delayed circuits (several delays, shared sources / targets) compiled and run with backend='fortran' (vectorize=False, Euler,
+    float64): the statement is about the code as run on any backend; the ring-buffer write / read indices are emitted per backend"""
+    while True:
+        c = gen_case(rng, "valid")
+        if c.get("taps") or c.get("twins") or c.get("spread_sinks") or c.get("decorator") or c.get("int_delays"):
+            continue
+        if not any(e[3] not in ("nokey", "none") for e in c["edges"]):
+            continue
+        return dict(c, vectorize=False, backend="fortran", steps=min(c["steps"], 16))
 
 def gen_relay(rng):
     """three layers: state sources -> algebraic relays (x = g * r_in) -> integrator targets, node declaration order permuted (relays
@@ -557,6 +574,7 @@ def check(ctx):
         for kind in ("sibling", "parallel", "heun", "none", "short", "tap", "mixnone", "twin", "spreadsib"):
             cases += [gen_case(ctx.rng, kind) for _ in range(n_viol)]
         cases += [gen_relay(ctx.rng) for _ in range(n_valid // 5)]
+        cases += [gen_fortran(ctx.rng) for _ in range(3 if quick else 20)]
         cases += [gen_conn(ctx.rng) for _ in range(n_valid // 5)]
     acases = [c for c in cases if c.get("adaptive")]; cases = [c for c in cases if not c.get("adaptive")]
     if not ctx.replay:
@@ -632,7 +650,7 @@ def check(ctx):
     nt = {canon(c) for i, c in enumerate(cases) if nontrivial(c) and i in in_guard}
     dt_of = lambda c: Fr(c["dt"])
     frac_q = lambda c: sorted({str((Fr(e[3]) / dt_of(c)) % 1) for e in c["edges"] if e[3] not in ("nokey", "none")})
-    hist = dict(with_decorator=sum(1 for c in cases if c.get("decorator")), adaptive_stream=len(acases), with_spread_sibling=sum(1 for c in cases if c.get("spread_sinks")), relay_circuits=sum(1 for c in cases if c.get("relay")), with_taps=sum(1 for c in cases if c.get("taps")), int_delays=sum(1 for c in cases if c.get("int_delays")), connectivity_stream=len(ci), decimal_step_stream=len(dec_cases), decimal_inexact_quotient=sum(1 for c in dec_cases if c["inexact_quotient"]),
+    hist = dict(fortran_backend=sum(1 for c in cases if c.get("backend") == "fortran"), with_decorator=sum(1 for c in cases if c.get("decorator")), adaptive_stream=len(acases), with_spread_sibling=sum(1 for c in cases if c.get("spread_sinks")), relay_circuits=sum(1 for c in cases if c.get("relay")), with_taps=sum(1 for c in cases if c.get("taps")), int_delays=sum(1 for c in cases if c.get("int_delays")), connectivity_stream=len(ci), decimal_step_stream=len(dec_cases), decimal_inexact_quotient=sum(1 for c in dec_cases if c["inexact_quotient"]),
                 vectorized=sum(1 for c in cases if c["vectorize"]), heun=sum(1 for c in cases if c["solver"] == "heun"),
                 in_guard=len(in_guard), guard_violating={g: len(gfalse[g]) for g in GUARDS},
                 raised=sum(1 for o in outs if isinstance(o, dict) and "raised" in o),
